@@ -42,7 +42,7 @@ if TYPE_CHECKING:
     from collections import defaultdict
     from collections.abc import Iterable, Iterator, Mapping, Sequence
 
-graphql_resolver = graphql.type.introspection.TypeResolvers()
+graphql_resolver = graphql.type.introspection.TypeResolvers
 
 
 def build_graphql_schema(schema_str: str) -> graphql.GraphQLSchema:
